@@ -179,7 +179,32 @@ pub fn replay_reshape(case: &Value, rep: &mut Report) {
 
 /// Randomized driver: reshape/flatten sequences on shapes larger than TLC enumerates.
 /// Every operation is logged with its observed outcome and the full (small) abstract state.
+/// Element counts beyond 2^24 (where a count is no longer exact in single precision): the reshape rule is still
+/// "accepted iff the counts are equal" (ReshapeDefined), checked directly -- such tensors are not logged.
+fn big_reshape_checks(rep: &mut Report) {
+    let n: usize = (1 << 24) + 1;
+    for (len, target, want_ok) in [(n, [1usize, 4096, 4096], false), (n - 1, [1, 4096, 4096], true), (n, [4, 2048, 2048], false)] {
+        rep.checks += 1;
+        let mut v = vec![0.0f32; len];
+        v[len - 1] = 7.0;
+        let t = Tensor::single(v);
+        let got = guarded(move || t.reshape(Shape::Triple(target[0], target[1], target[2])));
+        match (got, want_ok) {
+            (Ok(r), false) => rep.mismatch("C14", "reshape_not_refused", "reshape:big", json!({"elements": len, "to": target, "result_elements": flat(&r).len()}), &json!({"elements": len, "to": target})),
+            (Err(e), true) => rep.mismatch("C14", "reshape_refused", "reshape:big", json!({"elements": len, "to": target, "panic": e}), &json!({"elements": len, "to": target})),
+            (Ok(r), true) => {
+                let f = flat(&r);
+                if f.len() != len || f[len - 1] != 7.0 || shape_dims(&r.shape) != target.to_vec() {
+                    rep.mismatch("C14", "row_major", "reshape:big", json!({"elements": len, "to": target}), &json!({"elements": len, "to": target}));
+                }
+            }
+            (Err(_), false) => (),
+        }
+    }
+}
+
 pub fn record_reshape(seed: u64, tier: &str, trace: &mut Vec<Value>, rep: &mut Report) {
+    big_reshape_checks(rep);
     let mut rng = Rng::new(seed ^ 0xC14);
     let runs = if tier == "thorough" { 400 } else { 60 };
     let max_dim = 6i64;
